@@ -5,6 +5,7 @@ package main
 import (
 	"fmt"
 	"math/rand"
+	"runtime"
 	"sync"
 	"sync/atomic"
 	"time"
@@ -89,6 +90,10 @@ func c14Run(rng *rand.Rand, callers, nreq int, shape string, startVal int, lateT
 		if startVal != 0 {
 			target.StartWithVal(startVal)
 		} else {
+			target.Start()
+		}
+		if c14Restart { // starting a coroutine that is already running changes nothing: no second start value, no second effect
+			target.StartWithVal(200)
 			target.Start()
 		}
 	}
@@ -267,6 +272,71 @@ func c14Fresh(G, M int) E {
 	return out
 }
 
+// c14Restart: the target is started a second (and third) time right after its start - calls that must be ignored
+var c14Restart bool
+var c14Dummy int32
+
+// dying targets: one caller alternates between a fresh target that serves exactly one request and completes, and a long-lived
+// generator (y_k = k).  Every answer of the dying targets is 101 and the generator's answers to this caller are 1, 2, 3, ... - nothing
+// left over from a completed target may be taken for the generator's answer.
+func c14Dying(R int) E {
+	out := E{"ncallers": 1, "kind": "ok", "startVal": 0, "shape": "dying", "issued": 2 * R, "extras": E{"doNotation": true, "yieldFromIO": true},
+		"refs": []c14Ref{}, "froms": []c14From{}, "lifecycle": E{"startedBefore": false, "startedAfter": true, "doneBefore": false, "doneAfter": true}}
+	var live *fpgo.CorDef[int]
+	live = fpgo.CorNewGenerics[int](func() {
+		for k := 1; k <= R; k++ {
+			live.YieldRef(k)
+		}
+	})
+	live.Start()
+	dyingAns, liveAns := make([]int, 0, R), make([]int, 0, R)
+	fin := make(chan struct{})
+	var caller *fpgo.CorDef[int]
+	caller = fpgo.CorNewGenerics[int](func() {
+		defer close(fin)
+		for r := 1; r <= R; r++ {
+			var dying *fpgo.CorDef[int]
+			if r%2 == 0 {
+				dying = fpgo.CorNewGenerics[int](func() { dying.YieldRef(101) })
+				dying.Start()
+				dyingAns = append(dyingAns, caller.YieldFrom(dying, r))
+			} else { // a target that serves nothing and completes around the moment the request is handed over: the answer is the zero value
+				spin := (r * 7919) % 400
+				var ready, goFlag int32
+				dying = fpgo.CorNewGenerics[int](func() {
+					atomic.StoreInt32(&ready, 1)
+					for n := 0; atomic.LoadInt32(&goFlag) == 0; n++ {
+						if n > 2000 {
+							runtime.Gosched()
+						}
+					}
+					for j := 0; j < spin; j++ {
+						atomic.AddInt32(&c14Dummy, 1)
+					}
+				})
+				dying.Start()
+				for n := 0; atomic.LoadInt32(&ready) == 0; n++ {
+					if n > 2000 {
+						runtime.Gosched()
+					}
+				}
+				atomic.StoreInt32(&goFlag, 1)
+				dyingAns = append(dyingAns, 101+caller.YieldFrom(dying, r)) // recorded as 101 + 0
+			}
+			liveAns = append(liveAns, caller.YieldFrom(live, r))
+		}
+	})
+	caller.Start()
+	select {
+	case <-fin:
+		out["dyingAns"], out["liveAns"] = dyingAns, liveAns
+	case <-time.After(8 * time.Second):
+		out["kind"] = "stuck: callers or target never finished although the target had YieldRefs left"
+		out["dyingAns"], out["liveAns"] = []int{}, []int{}
+	}
+	return out
+}
+
 func c14Main(args []string) error {
 	switch args[0] {
 	case "record":
@@ -291,7 +361,9 @@ func c14Main(args []string) error {
 				if r%3 == 1 {
 					sv = 55
 				}
+				c14Restart = (r+callers)%3 == 0 && !(sv == 0 && r%2 == 0)                                                // (not with late targets: their request channel may be full, StartWithVal would wait for room)
 				w.write(c14Run(rng, callers, nreq, shapes[(r+callers)%3], sv, sv == 0 && r%2 == 0, sv != 0 && r%2 == 1)) // StartWithVal only before any request is queued
+				c14Restart = false
 				runs++
 			}
 		}
@@ -302,7 +374,8 @@ func c14Main(args []string) error {
 		}
 		for r := 0; r < flagInt(args, "fresh", 6); r++ {
 			w.write(c14Fresh(2+r%3, 1500))
-			runs++
+			w.write(c14Dying(4000))
+			runs += 2
 		}
 		fmt.Printf("{\"runs\":%d}\n", runs)
 		return nil
